@@ -822,7 +822,9 @@ def oracle(I, ctx, case, rng):
             n += 1
             # (a computed_value on the list target overwrites the extra element: then nothing differs)
             overwritten = lo[0] == "ok" and lo[3] == 0 and lout == out and ltree == tree
-            if not ((lo[0] == "err" and lo[1] == ERR["UnusedTargetError"]) or (lo[0] == "ok" and lo[3] == ERR["UnusedTargetError"]) or overwritten):
+            # (an extra element may also be consumed by a later subcontext_enter on the same list target and
+            # then fail differently: only ACCEPTING the description is a violation)
+            if lo[0] == "ok" and lo[3] == 0 and not overwritten:
                 ctx.violation("unused-list-element-accepted", dict(inp, ctx=t4), "description with a list element no primitive consumes was serialised",
                               observed=lo[:1] + lo[3:], expected="UnusedTargetError")
         # (M) a missing value (no default) must make serialisation fail
@@ -865,7 +867,7 @@ def run(ctx):
         "Deserialiser reads from random bytes, then mutated (missing/unused/short/default_values/changed/retyped-to-dict); each case runs "
         "the real Serialiser and the real Deserialiser and both Gallina interpreters; non-trivial = serialisation succeeds with >= 3 operations "
         "(distinct by program+description digest)")
-    n = ctx.pick(3000, 20000)
+    n = ctx.pick(2000, 20000)
     cases = []
     for c in load_corpus():
         try:
@@ -919,7 +921,7 @@ def run(ctx):
             pass
 
     # ---- property oracle on the implementation ---------------------------------------------
-    m = ctx.pick(8000, 80000)
+    m = ctx.pick(5000, 80000)
     evals = 0
     for case in cases:
         try:
